@@ -1491,7 +1491,11 @@ class Key(object):
         :return str: BIP38 password encrypted private key
         """
         flagbyte = b'\xe0' if self.compressed else b'\xc0'
-        return bip38_encrypt(self.private_hex, self.address(), password, flagbyte)
+        # BIP38 hashes the P2PKH base58 address of the key, whatever address form was requested (and cached) before
+        data = self.public_compressed_byte if self.compressed else self.public_uncompressed_byte
+        address = Address(data, network=self.network, script_type='p2pkh', encoding='base58',
+                          compressed=self.compressed).address
+        return bip38_encrypt(self.private_hex, address, password, flagbyte)
 
     def wif(self, prefix=None):
         """
